@@ -1,7 +1,7 @@
 (* Property C01 — Shooting transcription encodes exactly the chosen integration scheme.
    Only statements, closed by the lemmas of Proofs/, and their assumptions. *)
 From Coq Require Import ZArith QArith Qcanon List Lia Bool.
-From RV Require Import Base.Num Base.Vec Expr Ocp Rows Mech.Grid Mech.Intg Mech.Sampling
+From RV Require Import Proofs.VacuityA Base.Num Base.Vec Expr Ocp Rows Mech.Grid Mech.Intg Mech.Sampling
      Mech.Shooting Spec.SpecDyn Inst Proofs.QcInst Proofs.DynProofs Proofs.ShootProofs Proofs.C01Final.
 Import ListNotations.
 Local Open Scope nat_scope.
@@ -73,13 +73,18 @@ Theorem C01_ms_dynamics_iff :
   forall (F : Type) (OF : Ops F), FieldLaws OF ->
   forall (oc : ocp) (pt : point F),
     (forall k, k <= m_N (o_method oc) -> length (nth k (p_X pt) []) = o_nx oc) ->
-    (forall k x, k < m_N (o_method oc) -> length (Phi_k oc pt k x) = o_nx oc) ->
+    (forall k, k < m_N (o_method oc) -> length (Phi_k oc pt k (nth k (p_X pt) [])) = o_nx oc) ->
     (forall i, i < o_nx oc -> of_Q (nth i (o_scale_x oc) 1%Q) <> (o0 : F)) ->
     ((forall r, In r (rows_ms oc pt) -> rw_kind r = KDyn -> rw_h r = o0) <->
      (forall k, k < m_N (o_method oc) ->
         nth (S k) (p_X pt) [] = Phi_k oc pt k (nth k (p_X pt) []))).
-Proof. intros F OF L oc pt H1 H2 H3. exact (ms_dynamics_iff L oc pt H1 H2 H3). Qed.
+Proof. exact C01_ms_dynamics_iff_fixed. Qed.
 Print Assumptions C01_ms_dynamics_iff.
+(* The second hypothesis asks for the length of the propagated state of the NODE states only.  Until the vacuity audit of
+   round 4 it read `forall k x, ... length (Phi_k oc pt k x) = o_nx oc`, over every list x; the rk / expl_euler step maps pad
+   with zeros and never shorten their argument, so a list of length nx+1 refuted it for every N >= 1: the theorem was
+   vacuous for rk and expl_euler (Proofs/VacuityA.v: C01_ms_dynamics_iff_hyp_false_on_rk_euler; the corrected
+   hypotheses hold on this file's own example: C01_ms_dynamics_iff_fixed_nonvacuous). *)
 
 (* SingleShooting reports as states the recursion from the initial state *)
 Theorem C01_ss_states_recursion :
